@@ -224,6 +224,22 @@ def check_model(blists, defmask, docmask, generic=False):
             if d != wantdoc:
                 note(why="inherited docstring", src=src, cls=nm, got=d, want=wantdoc)
                 return False
+            # what the class page says: "overrides <the next definition along the linearisation>", "overridden in <subclasses that redefine it>"
+            from pydoctor.templatewriter.pages import get_override_info
+            from pydoctor.stanutils import flatten_text
+            notes_ = [flatten_text(t) for t in get_override_info(c, "m")]
+            over = [t[len("overrides "):] for t in notes_ if t.startswith("overrides ")]
+            wantover = next((["h.%s.m" % k.__name__] for k in pc.__mro__[1:] if "m" in vars(k)), [])
+            if over != wantover:
+                note(why="the 'overrides' note on the class page names another definition than attribute lookup along the MRO reaches next", src=src, cls=nm, got=over, want=wantover)
+                return False
+            inn = [t[len("overridden in "):] for t in notes_ if t.startswith("overridden in ")]
+            got_in = sorted(x.strip() for x in inn[0].split(",")) if inn else []
+            # subclasses (in the documented hierarchy) that define m themselves and for which this class's m is the next one along their MRO
+            want_in = sorted("h." + k for k in names if k != nm and ns[k] is not pc and issubclass(ns[k], pc) and "m" in vars(ns[k]))
+            if pyerr is None and not set(got_in) <= set(want_in):
+                note(why="'overridden in' lists a class that does not override the member", src=src, cls=nm, got=got_in, want_subset_of=want_in)
+                return False
     return True
 
 
@@ -236,7 +252,7 @@ def _parts_model():
     parts=_parts_model, timeout=(200, 2400), cls="E", tracing="concrete-after-choice", twin="first",
     code=["pydoctor.model.compute_mro", "pydoctor.model.Class._init_mro", "pydoctor.model.Class.mro", "pydoctor.model.Class.find",
           "pydoctor.model.Inheritable.docsources", "pydoctor.model.get_docstring", "pydoctor.astbuilder.ModuleVistor.visit_ClassDef",
-          "pydoctor.mro.mro"],
+          "pydoctor.mro.mro", "pydoctor.templatewriter.pages.get_override_info", "pydoctor.templatewriter.util.overriding_subclasses"],
     bounds={"quick": "4 classes: all 160 ordered-base hierarchies x member-definition mask (4 bits) x docstring mask restricted to defmask x generic-subscripted base or not",
             "thorough": "5 classes: all 10 400 hierarchies x 6 member/docstring placements x generic or not"},
     outside="bases outside the module, forward references, metaclasses, >5 classes",
